@@ -250,7 +250,9 @@ func runC16(r *evid.Run) {
 		for _, in := range incs {
 			for _, ex := range excs {
 				cases = append(cases, c16Case{Tree: t, Include: in, Exclude: ex, Dst: "empty"})
-				if len(in)+len(ex) <= 2 {
+				// the populated destination has a directory a (to merge into): only for trees where a is one too;
+				// a file meeting a directory is C15's subject and rightly fails the copy
+				if an := t.Find("a"); len(in)+len(ex) <= 2 && (an == nil || an.Kind == fsmodel.Dir) {
 					cases = append(cases, c16Case{Tree: t, Include: in, Exclude: ex, Dst: "populated"})
 				}
 			}
